@@ -48,6 +48,17 @@ CHECKS["C06"] = ("walletsim", "exploration",
   "requests are issued at synchronised points so that the wallet's view equals the node's; inside a parallel section only the cross-transaction and signature conditions are decided; FundPsbt is not driven; conservation and fee floor are asserted as side conditions (not a C07 claim). " + TB,
   "DESIGN.md §3.4, §6 C06")
 
+CHECKS["C11"] = ("dbsim", "exploration",
+  "deterministic simulation: seeded programs of transactions (commit / error / panic / injected commit failure / injected k-th write failure / manual rollback, reopen, read transaction held across a writer) over the real bdb+bbolt file through the public walletdb API, against a nested-map reference model compared after every operation",
+  "Random transaction programs (put/delete/get, nested bucket create/delete to depth 4, sequences, forward/backward cursor walks with seek, ForEach, cursor delete) run on the real driver; every read is compared with the model-with-own-writes, every transaction end with a full recursive dump, every outcome (nil, error, panic, failed commit, failed write) with commit/rollback of the model, reopen with the model, an old read transaction with its snapshot, documented error values where bdb's convertErr defines them. Exploration: the space of programs is unbounded; the oracle is exact. Two cursor behaviours of the pinned bbolt inside a dirty transaction are known findings.",
+  "concurrent readers under the scheduler are not part of this check (snapshot isolation is checked with a read transaction held across a writer in one task); Cursor.Last on a bucket emptied in the same read-write transaction is never called (bbolt hangs). " + TB,
+  "DESIGN.md §3.3, §6 C11")
+CHECKS["C19"] = ("migsim", "fault_enumeration",
+  "deterministic simulation with enumerated fault positions: generated migration.Manager tables over a real walletdb namespace; for each case a failure is injected at every migration position p, at every database write k, and at commit; plus the real wallet's version checks on a database whose stored version was raised",
+  "For every generated (version table, stored version) the upgrade is run fault-free and then once per migration position p (that migration fails after partial writes), once per mutating database call k until the fault no longer fires, and once with a failing commit — all inside one walletdb.Update as wallet.OpenWithRetry does. Oracle: the trace of applied migrations is exactly the ascending list of versions above the stored one, the stored version ends at latest, and after any failure the stored version and the whole bucket dump are unchanged; a newer-than-known version is refused (migration.ErrReversion; wtxmgr/waddrmgr/wallet.Open on a real wallet database) with the file bytes unchanged. fault_enumeration: per case all p and all k are enumerated (counts in the evidence); the cases themselves are sampled.",
+  "real old-format migrations of wtxmgr/waddrmgr are not run (they need old data); " + TB,
+  "DESIGN.md §6 C19")
+
 NOT_APPLICABLE = [
  {"property_id": "C07", "reason": "pure function of its input (outputs, fee rate, coin list, change script): no schedule, clock, I/O, fault or history for a simulator to own; the deciding technique would be input enumeration/property-based testing, which is a different family (DESIGN.md §7)"},
 ]
